@@ -130,6 +130,14 @@ def _e(value: int | float | str) -> float:
     return float(value)
 
 
+def _same(x, y) -> bool:
+    # HASH("...") / STR("...") stand for numbers: compared with a number, their value counts
+    sym = lambda v: isinstance(v, str) and v.startswith(('HASH("', 'STR("'))
+    if (sym(x) and not isinstance(y, str)) or (sym(y) and not isinstance(x, str)):
+        return _e(x) == _e(y)
+    return x == y
+
+
 def get_unop_instruction(op: str):
     return {
         "-": ("sub", lambda x: -_e(x)),
@@ -153,8 +161,8 @@ def get_binop_instruction(op: str):
         "&": ("and", lambda x, y: int(_e(x)) & int(_e(y))),
         ">>": ("srl", lambda x, y: int(_e(x)) >> int(_e(y))),
         "<<": ("sll", lambda x, y: int(_e(x)) << int(_e(y))),
-        "==": (comp("=="), lambda x, y: x == y),
-        "!=": (comp("!="), lambda x, y: x != y),
+        "==": (comp("=="), lambda x, y: _same(x, y)),
+        "!=": (comp("!="), lambda x, y: not _same(x, y)),
         "<": (comp("<"), lambda x, y: _e(x) < _e(y)),
         ">": (comp(">"), lambda x, y: _e(x) > _e(y)),
         "<=": (comp("<="), lambda x, y: _e(x) <= _e(y)),
